@@ -141,6 +141,17 @@ theorem C09_preds_flip {α : Type} {P : α → Prop} {cmp : α → α → Int} (
   · rw [p1.2.2.2.2.1, p2.2.2.2.2.2]; omega
   · rw [p1.1, p2.1]; omega
 
+/-- on Int the six predicates are the six order predicates of the 64-bit integers, for all pairs -/
+theorem C09_int_preds (a b : BitVec 64) :
+    (CelloGen.Cmp.eq intCmp a b = true ↔ a = b) ∧ (CelloGen.Cmp.neq intCmp a b = true ↔ a ≠ b) ∧
+    (CelloGen.Cmp.gt intCmp a b = true ↔ b.toInt < a.toInt) ∧ (CelloGen.Cmp.lt intCmp a b = true ↔ a.toInt < b.toInt) ∧
+    (CelloGen.Cmp.ge intCmp a b = true ↔ b.toInt ≤ a.toInt) ∧ (CelloGen.Cmp.le intCmp a b = true ↔ a.toInt ≤ b.toInt) := by
+  have p := C09_preds intCmp a b
+  have i := C09_int a b
+  refine ⟨p.1.trans i.2.2.1, p.2.1.trans (not_congr i.2.2.1), p.2.2.1.trans i.2.2.2, p.2.2.2.1.trans i.2.1, ?_, ?_⟩
+  · rw [p.2.2.2.2.1]; omega
+  · rw [p.2.2.2.2.2]; omega
+
 /-! ### Float, under the stated hypothesis about the machine's double subtraction -/
 
 /-- **C09 (Float), under `SubSign`.** If for non-NaN doubles the sign of `a - b` is the sign of the real difference, then
@@ -179,6 +190,15 @@ example : SubSign refFloatOps ∧ floatCmp refFloatOps 0x8000000000000000 0 = 0 
 theorem C09_val (ops : FloatOps UInt64) (hs : SubSign ops) (k : Kind) :
     StrictCmpOn (hasKind k) (fun a b => norm a = norm b) (valCmp ops) :=
   valCmp_strict ops (C09_float_under_SubSign ops hs).2 C09_int_lawful k
+
+/-- hence `eq` is equality of content and `neq` its negation, on the values of any one kind -/
+theorem C09_eq_is_content_equality (ops : FloatOps UInt64) (hs : SubSign ops) (k : Kind) (a b : Val)
+    (ha : hasKind k a) (hb : hasKind k b) :
+    (CelloGen.Cmp.eq (valCmp ops) a b = true ↔ norm a = norm b) ∧
+    (CelloGen.Cmp.neq (valCmp ops) a b = true ↔ norm a ≠ norm b) := by
+  have z := (C09_val ops hs k).zero_iff a b ha hb
+  have p := C09_preds (valCmp ops) a b
+  exact ⟨p.1.trans z, p.2.1.trans (not_congr z)⟩
 
 /-- **C09 (all values without Float), unconditionally.** For kinds with no Float at any level nothing is assumed: whatever
     the floating-point operations do, `cmp` is a lawful order on these values, 0 exactly on equal content. -/
